@@ -33,7 +33,7 @@ class Proof:
     """
 
     def __init__(self, name, unit, harness, enforce=None, replace=(), kind='U',
-                 loop_contracts=True, flags=(), backend='sat', timeout=300, defines=(),
+                 loop_contracts=True, flags=(), backend='sat', timeout=1800, defines=(),
                  unwind=None, unwindset=None, tier='quick', bound='', checks=None, min_obligations=1,
                  canaries=1, object_bits=None, expect_loops=0, cex_for=(), mem_gb=8, no_dfcc=False, aux_violation=False):
         self.aux_violation = aux_violation   # no native/bounded oracle covers this kernel: a failed inductive obligation is reported
